@@ -75,6 +75,7 @@ func rulesC10(c *Ctx) {
 	boundsC10(c, tt, gtr)
 	swapC10(c, tt, ce, gtr)
 	intersectC10(c)
+	passthroughC10(c, ce)
 	sentinelsC10(c)
 	residualC10(c, ce)
 	// the residual is built through reduce: its boolean short-cuts decide
@@ -582,4 +583,72 @@ func residualC10(c *Ctx, ce *ssa.Function) {
 			}
 		}
 	}
+}
+
+// passthroughC10: the exported wrapper hands the extracted range back as is.
+func passthroughC10(c *Ctx, ce *ssa.Function) {
+	p := c.P
+	c.Rule("C10.passthrough", "ConditionExpr returns the time range (and the error) computed by conditionExpr unchanged: it only post-processes the residual expression; a bound adjusted after extraction (clamped, defaulted, widened) no longer describes the timestamps the condition admits")
+	f := p.SSAFunc(p.Func("ConditionExpr"))
+	if f == nil {
+		c.Unk("C10.passthrough", "ConditionExpr", 0, "anchor not found")
+		return
+	}
+	n := 0
+	for _, b := range f.Blocks {
+		ret, ok := b.Instrs[len(b.Instrs)-1].(*ssa.Return)
+		if !ok || len(ret.Results) != 3 {
+			continue
+		}
+		n++
+		key := fmt.Sprintf("ConditionExpr: returned range #%d", n)
+		v := ret.Results[1]
+		fromCall := func(v ssa.Value) bool {
+			ex, ok := v.(*ssa.Extract)
+			if !ok || ex.Index != 1 {
+				return false
+			}
+			call, ok := ex.Tuple.(*ssa.Call)
+			return ok && call.Call.StaticCallee() == ce
+		}
+		if fromCall(v) {
+			c.OK("C10.passthrough", key, ret.Pos(), "the range conditionExpr returned")
+			continue
+		}
+		// spilled to a local because its address is taken
+		if ld, ok := v.(*ssa.UnOp); ok {
+			if a, ok := ld.X.(*ssa.Alloc); ok {
+				okInit, wrote := false, ""
+				for _, ref := range *a.Referrers() {
+					switch r := ref.(type) {
+					case *ssa.Store:
+						if r.Addr == ssa.Value(a) {
+							if fromCall(r.Val) {
+								okInit = true
+							} else {
+								wrote = "the whole range is overwritten at " + p.Pos(r.Pos())
+							}
+						}
+					case *ssa.FieldAddr:
+						for _, ref2 := range *r.Referrers() {
+							if st, ok := ref2.(*ssa.Store); ok && st.Addr == ssa.Value(r) {
+								wrote = "bound " + fieldNameOf(r) + " is written at " + p.Pos(st.Pos())
+							}
+						}
+					}
+				}
+				switch {
+				case wrote != "":
+					c.Bad("C10.passthrough", key, ret.Pos(), wrote+" after extraction: the returned range is not the one the condition denotes")
+				case okInit:
+					c.OK("C10.passthrough", key, ret.Pos(), "the range conditionExpr returned (held in a local that is only read)")
+				default:
+					c.Unk("C10.passthrough", key, ret.Pos(), "the local holding the range is not initialised from conditionExpr")
+				}
+				continue
+			}
+		}
+		c.Unk("C10.passthrough", key, ret.Pos(), "the returned range is not recognisably conditionExpr's")
+	}
+	c.Floor("C10.passthrough", n, 1)
 }
